@@ -8,6 +8,29 @@ import json
 import sys
 
 
+def fingerprint(v, depth=0):
+    """what a public name is bound to, for values that have a stable textual identity: plain data, loggers, classes and
+    functions (by qualified name), and containers of those — never a memory address"""
+    import logging
+    import types
+
+    if isinstance(v, logging.Logger):
+        return "Logger:" + v.name
+    if isinstance(v, (str, int, float, bool, bytes, type(None))):
+        return repr(v)[:200]
+    if isinstance(v, (type, types.FunctionType, types.BuiltinFunctionType)):
+        return f"{getattr(v, '__module__', '?')}.{getattr(v, '__qualname__', '?')}"
+    if isinstance(v, types.ModuleType):
+        return "module:" + v.__name__
+    if depth < 2 and isinstance(v, (tuple, list)):
+        return [fingerprint(x, depth + 1) for x in v[:50]]
+    if depth < 2 and isinstance(v, (set, frozenset)):
+        return sorted(str(fingerprint(x, depth + 1)) for x in list(v)[:50])
+    if depth < 2 and isinstance(v, dict):
+        return sorted((str(fingerprint(k, depth + 1)), str(fingerprint(x, depth + 1))) for k, x in list(v.items())[:50])
+    return None
+
+
 def main() -> None:
     repo = sys.argv[1]
     job = json.loads(sys.argv[2])
@@ -59,7 +82,7 @@ def main() -> None:
                         continue
                     first = min(owners[id(v)])
                     d[n] = [first[0], first[1], type(v).__name__, str(getattr(v, "__module__", None)),
-                            str(getattr(v, "__qualname__", None))]
+                            str(getattr(v, "__qualname__", None)), fingerprint(v)]
                 snapshot[m] = d
         except BaseException as e:  # noqa
             failed = {"step": len(job["steps"]), "form": "completion", "module": "?", "name": None,
